@@ -54,7 +54,7 @@ class C08(PropBase):
 
     def init_op(self, rng):
         return {"op": "init", "sessions": [{"name": "c", "role": "c", "peer": "s"}, {"name": "s", "role": "s", "peer": "c"}],
-                "observe_pending": True, "illegal_p": rng.choice([0.05, 0.2, 0.5]), "byz_p": rng.choice([0.0, 0.0, 0.02, 0.06]),
+                "observe_pending": True, "follow": True, "illegal_p": rng.choice([0.05, 0.2, 0.5]), "byz_p": rng.choice([0.0, 0.0, 0.02, 0.06]),
                 "chunk": rng.choice(["whole", "mixed", "mixed", "byte"]), "term_p": rng.choice([0.0, 0.0, 0.01, 0.04]),
                 "max_out": rng.choice([1, 2, 3, 6]),
                 "big": rng.choice([0.02, 0.1]), "style": policy.wire_style(rng)}
@@ -279,6 +279,11 @@ class C08(PropBase):
                 offender = lt
                 break
         if not okk and not ev["exc"]["proto"]:
+            if ev.get("followed"):
+                # the exception class is C05's statement; C08 goes on and judges what the session does next against the
+                # documented state machine (the bytes were delivered, whatever the implementation did with them)
+                st.hit("foreign_exception_followed")
+                return
             self.diverge_unless(dict(ev, sync=False), "receive raised %s (C05's statement)" % ev["exc"]["type"])
         if exp[0] == "error" and okk:
             raise Violation(P, "illegal-delivery-accepted/%s/%s/%s" % (role, offender["kind"], pre.st),
